@@ -93,6 +93,33 @@ class Mir:
             if name not in self.functions:  # duplicates (ctor shims) keep the first
                 self.functions[name] = Function(name, m.group(1), m.group(3))
 
+        for m in re.finditer(r"^const ([^\n]+) = \{\n(.*?)^\}\n", self.text, re.S | re.M):
+            head = m.group(1)
+            if ": " not in head:
+                continue
+            name = "const " + head.rsplit(": ", 1)[0].strip()
+            if name not in self.functions:
+                self.functions[name] = Function(name, "fn %s() -> " % name, m.group(2))
+
+        # one-line constants: `const NAME: T = const VALUE;`
+        self.simple_consts = {}
+        for m in re.finditer(r"^const ([^\n]+): [^=\n:]+ = const ([^;\n]+);$", self.text, re.M):
+            self.simple_consts[m.group(1).strip()] = m.group(2).strip()
+
+    def simple_const(self, path):
+        if path in self.simple_consts:
+            return self.simple_consts[path]
+        last = path.split("::")[-1]
+        hits = [v for k, v in self.simple_consts.items() if k.split("::")[-1] == last]
+        return hits[0] if len(hits) == 1 else None
+
+    def const_item(self, path):
+        if ("const " + path) in self.functions:
+            return self.functions["const " + path]
+        last = path.split("::")[-1]
+        hits = [f for n, f in self.functions.items() if n.startswith("const ") and n.split("::")[-1].replace("const ", "") == last]
+        return hits[0] if len(hits) == 1 else None
+
     def find(self, pattern):
         hits = [f for n, f in self.functions.items() if re.search(pattern, n)]
         if len(hits) != 1:
@@ -328,6 +355,34 @@ class Exec:
             return self.strv(s)
         if c == "()":
             return self.intv(0)
+        if re.match(r"^[\w:]*::[A-Z][A-Z0-9_]+$", c) or re.match(r"^[A-Z][A-Z0-9_]+$", c) or re.search(r"::promoted\[\d+\]$", c):
+            simple = self.mir.simple_const(c)
+            if simple is not None and simple != c:
+                v = self.const(p, simple)
+                try:
+                    v.__dict__["mir_const"] = c
+                except Exception:
+                    pass
+                return v
+            item = self.mir.const_item(c)
+            key = ("k", c)
+            if item is not None:
+                if key not in self.consts:
+                    results = []
+                    q = Path()
+                    sub_handler, self.handler = self.handler, None
+                    try:
+                        self.run(item, q, None, lambda qp, how, value: results.append((qp, how, value)))
+                    finally:
+                        self.handler = sub_handler
+                    rets = [(qp, v) for qp, how, v in results if how == "return"]
+                    if len(rets) == 1:
+                        for cnd in rets[0][0].pc:
+                            self.solver.add(cnd)
+                        rets[0][1].__dict__["mir_const"] = c
+                        self.consts[key] = rets[0][1]
+                if key in self.consts:
+                    return self.consts[key]
         # function items, ZeroSized closures, promoted constants ...
         key = ("c", c)
         if key not in self.consts:
@@ -427,7 +482,13 @@ class Exec:
                         p.pc.append(proj(v, "%s.%d" % (name, i)) == self.operand(p, it))
                 return v
         if re.match(r"^[A-Z]\w*$", r):
-            return fresh(r)  # unit variant of an enum the executor does not know: opaque
+            # unit variant of an enum the executor does not know: one value per name, pairwise distinct
+            key = ("u", r)
+            if key not in self.consts:
+                v = z3.Const("unit_" + r, V)
+                self.solver.add(disc(v) == 100000 + len([k for k in self.consts if k[0] == "u"]))
+                self.consts[key] = v
+            return self.consts[key]
         raise Inconclusive("unsupported rvalue %r" % r)
 
     def rvalue(self, p, r, fn=None, dst=None):
@@ -462,6 +523,27 @@ class Exec:
             else:
                 p.pc.append(asint(v) == z3.If(z3.Or(ia != 0, ib != 0), 1, 0))
             return v
+        m = re.match(r"^(Add|Sub|Mul)WithOverflow\((.+)\)$", r, re.S)
+        if m:
+            a, b = [self.operand(p, x) for x in split_top(m.group(2))]
+            val = fresh(m.group(1))
+            ia, ib = asint(a), asint(b)
+            p.pc.append(asint(val) == {"Add": ia + ib, "Sub": ia - ib, "Mul": ia * ib}[m.group(1)])
+            t = fresh("checked")
+            p.pc.append(proj(t, "f0") == val)
+            p.pc.append(asint(proj(t, "f1")) == 0)
+            return t
+        m = re.match(r"^Mul\((.+)\)$", r, re.S)
+        if m:
+            a, b = [self.operand(p, x) for x in split_top(m.group(1))]
+            v = fresh("mul")
+            p.pc.append(asint(v) == asint(a) * asint(b))
+            return v
+        m = re.match(r"^PtrMetadata\((.+)\)$", r)
+        if m:
+            v = pure_fn("len", 1)(self.operand(p, m.group(1)))
+            p.pc.append(asint(v) >= 0)
+            return v
         m = re.match(r"^Not\((.+)\)$", r)
         if m:
             a = self.operand(p, m.group(1))
@@ -473,7 +555,7 @@ class Exec:
     # ---- calls
     @staticmethod
     def parse_call(term):
-        m = re.match(r"^(.*) -> (?:\[return: (bb\d+), unwind [^\]]*\]|unwind [a-z]+);$", term, re.S)
+        m = re.match(r"^(.*) -> (?:\[return: (bb\d+), unwind[^\]]*\]|unwind[: ]*[a-z0-9]+);$", term, re.S)
         if not m:
             return None
         lhs_call, ret = m.group(1), m.group(2)
@@ -540,6 +622,13 @@ class Exec:
         if re.search(r"<str as PartialEq>::eq$|<&str as PartialEq>::eq$|<PathBuf as PartialEq<&Path>>::eq$|<OsStr as PartialEq<str>>::eq$|<String as PartialEq<str>>::eq$", fn):
             res = fresh("streq")
             p.pc.append(asint(res) == z3.If(asstr(argv[0]) == asstr(argv[1]), 1, 0))
+            return res
+        if re.search(r"core::num::<impl \w+>::pow$", fn):
+            res = fresh("pow")
+            base = [c for (k, c), v in self.consts.items() if k == "i" and v is argv[0]]
+            exp = [c for (k, c), v in self.consts.items() if k == "i" and v is argv[1]]
+            if base and exp:
+                p.pc.append(asint(res) == base[0] ** exp[0])
             return res
         if re.search(r"(Deref>::deref|::as_deref|IntoIterator>::into_iter|Path::new::<str>|::as_str|::as_ref|Borrow<.*>>::borrow|::as_path|PathBuf as From<OsString>>::from|::by_ref)$", fn):
             return argv[0]
@@ -651,6 +740,8 @@ class Exec:
                     self.handler(self, p, "drop", [self.place(p, m.group(1))], None, m.group(1), fn)
                 bb = m.group(2)
                 continue
+            if term == "resume;":
+                raise Done("dead")
             m = re.match(r"^assert\((.+?), .*\) -> \[success: (bb\d+), .*\];$", term, re.S)
             if m:
                 bb = m.group(2)
